@@ -169,7 +169,13 @@ const (
 
 // joinPipelineID makes the pipeline ID (also buffer ID) from key values. Separators inside values are escaped so that
 // different key sets never share an ID and the ID can be split back into the same values.
+//
+// A single empty key value is represented by a lone escape character, as an empty buffer ID would mean no queue directory
+// of its own.
 func joinPipelineID(keys []string) string {
+	if len(keys) == 1 && len(keys[0]) == 0 {
+		return string(pipelineIDEscape)
+	}
 	sb := strings.Builder{}
 	for i, key := range keys {
 		if i > 0 {
@@ -187,6 +193,9 @@ func joinPipelineID(keys []string) string {
 
 // splitPipelineID splits a pipeline ID made by joinPipelineID into key values
 func splitPipelineID(pipelineID string) []string {
+	if pipelineID == string(pipelineIDEscape) {
+		return []string{""}
+	}
 	keys := make([]string, 0, 10)
 	current := make([]byte, 0, len(pipelineID))
 	for i := 0; i < len(pipelineID); i++ {
